@@ -131,4 +131,18 @@ PROPERTIES = {
                 assumptions=["Go map iteration order is modelled as an arbitrary permutation chosen per range statement (maps with more than 4 entries iterate in insertion order)",
                              "the generators start no goroutines and read no clock/environment on these paths (such a call would abort the path as unsupported)",
                              "TS and OpenAPI generators, byte rendering by libopenapi/yaml and plugin parameters are not yet part of this check"]),
+    "C16": dict(G_HTTPGEN, load_pkgs=["./internal/httpgen", "./cmd/protoc-gen-openapiv3"], replay_timeout=240,
+                overlay={"internal/httpgen/zz_verif_c16.go": "harness/c16/c16_termination.go",
+                         "cmd/protoc-gen-openapiv3/zz_verif_c16.go": "harness/c16main/c16_main.go"},
+                harnesses=[dict(func="VerifC16Traversals", reach=["C16/traversals/decided"], quick=dict(budget=300, parts=8, flags=["-maxpaths", "100000"]), thorough=dict(budget=900, parts=16, flags=["-maxpaths", "400000"])),
+                           dict(func="VerifC16Mock", reach=["C16/mock/decided", "C16/mock/recursive"], quick=dict(budget=300, parts=8, flags=["-maxpaths", "100000"]), thorough=dict(budget=900, parts=16, flags=["-maxpaths", "400000"])),
+                           dict(func="VerifC16DeepDiamond", reach=["C16/diamond/decided"], quick=dict(budget=100), thorough=dict(budget=300)),
+                           dict(func="VerifC16NameKernelsSnake", reach=["C16/kernels/snake"], quick=dict(budget=200), thorough=dict(budget=600)),
+                           dict(func="VerifC16NameKernelsHeader", reach=["C16/kernels/header"], quick=dict(budget=200), thorough=dict(budget=600)),
+                           dict(func="VerifC16NameKernelsCamel", reach=["C16/kernels/camel"], quick=dict(budget=200), thorough=dict(budget=600)),
+                           dict(func="VerifC16MainSetup", pkgpath=MOD + "/cmd/protoc-gen-openapiv3", test_pkg="./cmd/protoc-gen-openapiv3", test_pkgname="main",
+                                reach=["C16/main/setup-error-returned", "C16/main/setup-ok"], quick=dict(budget=100), thorough=dict(budget=300))],
+                bounds_text={"quick": "message graphs: 3 messages x 2 message-typed fields each with arbitrary targets (direct and mutual recursion included), second edge singular or repeated; budgets: tscommon 60k, generators 3M executed SSA instructions and call depth 120; deep diamond: 16 levels x 2 references; name kernels: strings <= 4-5 over [ab_], [aAX-], [aAZ0]; openapiv3 main: Options.New stubbed with an arbitrary (plugin | error) result"},
+                assumptions=["termination is decided as 'finishes within a stated work budget and call depth on every graph in the bound' - wall time and memory as such are not measured",
+                             "openapiv3 collectMessageRecursive/processMessage (libopenapi objects) are not inside this check yet; only its main set-up path is"]),
 }
